@@ -105,7 +105,9 @@ class Ctx:
             yield
         except Timeout:
             signal.setitimer(signal.ITIMER_REAL, 0)
-            self.violation(case, {"kind": "did-not-return"}, {"what": f"no return within {seconds or WATCHDOG_S}s"})
+            self.violations.append({"case": case, "witness": {"kind": "did-not-return"},
+                                    "detail": {"what": f"no return within {seconds or WATCHDOG_S}s"}})
+            raise StopShard()  # one hang per shard is enough: do not wait for the watchdog again and again
         except MemoryError as e:
             signal.setitimer(signal.ITIMER_REAL, 0)
             self.violation(case, {"kind": "memory-exhausted"}, {"what": f"MemoryError: {e}"})
@@ -255,10 +257,15 @@ def run_check(modname: str, tier: str, seed: int, jobs: int | None = None) -> in
     errors = []
     viols = []
     shard_walls = []
+    stopped_early = False
     for buf, group in groups.items():
+        if stopped_early:
+            break
         with _pool(repo, buf, min(jobs, len(group))) as ex:
             futs = [ex.submit(_wrun, modname, s, seed) for s in group]
             for f in as_completed(futs):
+                if f.cancelled():
+                    continue
                 try:
                     r = f.result()
                 except Exception as e:  # BrokenProcessPool etc.
@@ -285,6 +292,11 @@ def run_check(modname: str, tier: str, seed: int, jobs: int | None = None) -> in
                 if r["error"]:
                     errors.append(f"shard {jkey(r['shard'])[:200]}: {r['error']}")
                 shard_walls.append(r["wall"])
+                if len(viols) >= 40 and not stopped_early:
+                    # the property is broken all over the place: stop dispatching, report what was found
+                    stopped_early = True
+                    for g in futs:
+                        g.cancel()
 
     # ---- confirm + classify violations --------------------------------------------------------------------
     known = load_known()
@@ -336,7 +348,7 @@ def run_check(modname: str, tier: str, seed: int, jobs: int | None = None) -> in
         if missing:
             harness_fail.append(f"outcome classes never observed: {missing}")
 
-    exhaustive = not errors and not viols
+    exhaustive = not errors and not viols and not stopped_early
     wall = time.time() - t0
     ev = {
         "property_id": prop,
